@@ -49,18 +49,30 @@ fn main() {
     let srcs = ["a.veryl", "b.veryl", "c.veryl"];
     let names = ["a.veryl", "b.veryl", "c.veryl", "t1", "t2"];
     let mut total = 0u64;
-    for round in 0..400u64 {
+    for round in 0..1500u64 {
         let root = base.join(format!("r{round}"));
         let mut log: Vec<String> = vec![];
         let mut m = Model { disk: None, saved: BTreeMap::new(), next: BTreeMap::new(), current: false, key: "k0".to_string() };
         log.push("open(k0)".to_string());
         let mut st = cache::Store::open(&root, "k0");
-        let nops = 4 + g.below(14);
-        for _ in 0..nops {
+        // plan: (operation kind, source index). Every other round starts with a scripted build (put + set_* for some files, save, then a
+        // warm re-scan: keep / invalidate, save, reopen) so that the interesting states are reached often; random operations follow.
+        let mut plan: Vec<(u64, usize)> = vec![];
+        if round % 2 == 0 {
+            let files: Vec<usize> = (0..3).filter(|_| g.below(3) != 0).collect();
+            for &f in &files { plan.push((0, f)); plan.push((6 + g.below(3), f)); if g.below(2) == 0 { plan.push((6 + g.below(3), f)); } }
+            plan.push((9, 0));
+            if g.below(3) == 0 { plan.push((11, 0)); }
+            for &f in &files { plan.push((if g.below(4) == 0 { 0 } else { 3 }, f)); if g.below(4) == 0 { plan.push((5 + g.below(4), f)); } }
+            plan.push((9, 0));
+            plan.push((11, 0));
+        }
+        for _ in 0..(4 + g.below(14)) { plan.push((g.below(12), g.below(3) as usize)); }
+        for (kind, si) in plan {
             total += 1;
-            let src = srcs[g.below(3) as usize];
+            let src = srcs[si];
             vp_case(format!("{:?}", log));
-            match g.below(12) {
+            match kind {
                 0 | 1 | 2 => {
                     let hash = format!("h{}", g.below(3));
                     let blob: Option<Vec<u8>> = match g.below(4) { 0 => None, 1 => Some(vec![]), _ => Some((0..g.below(5)).map(|_| g.below(4) as u8).collect()) };
